@@ -158,4 +158,22 @@ func init() {
 				QuickEnv: map[string]string{"VERIF_PREEMPT_BOUND": "2", "VERIF_SCENARIO_STRIDE": "6"}, ThoroughEnv: map[string]string{"VERIF_PREEMPT_BOUND": "2", "VERIF_SCENARIO_STRIDE": "1"}, ThoroughTimeout: 60 * time.Minute},
 		},
 	}
+
+	registry["C16"] = &Check{
+		Rule:        "triples (a,b,c) of version vectors over 1-6 node ids with counters from {0,1,2,3,small,2^62,2^63-2,2^63-1,uniform}, entries absent / explicit zero / present, built through Increment chains or ReadVersionVector on crafted bytes; b and c are sometimes derived as upper bounds so that chains and upper bounds are frequent. Oracle: pointwise reference order + the lattice laws on the implementation's own answers + operand snapshots + wire round trip. Non-trivial = the pair (a,b) is not identical and involves an absent-vs-zero entry, an explicit zero or a counter >= 2^62. Distinct = hash of the three vectors.",
+		Assumptions: []string{"vectors are built only through the package's public surface (Increment, Merge, Prune, Compact, ReadVersionVector)"},
+		Units: []Unit{
+			{Name: "laws", Pkg: "c16", Run: "^(TestC16Laws|TestC16Aliasing)$", QuickChecks: 60000, ThoroughChecks: 600000, ThoroughShards: 16},
+		},
+	}
+	registry["C17"] = &Check{
+		Rule: "histories (1-25 steps) over 2-5 simulated nodes of bootstrap / join via a member seed (with tryJoinSeeds' generation bump) / restart / in-place suspect+recover / RemoveMember / IncrementVersion / epoch bump / gossip merge, every gossip merge checked for monotonicity and the changed flag; then a drawn triple of snapshots merged in every order under a drawn VersionConcurrentStrategy, MaxClockSkew and MaxVersionVectorEntries (0 or >= node count). Oracle: laws on the projection member -> (generation, logical clock). Non-trivial = the two views disagree on at least one shared member. Distinct = hash of the three views and options.",
+		Assumptions: []string{
+			"only nodes that are members of their own view act as join seed, failure detector or version incrementer (the default flow of NodeActor); a non-member incrementing its own vector entry lets a later merge prune that entry without reporting changed - observed, outside the generated domain, see DESIGN.md",
+			"MaxVersionVectorEntries below the member count truncates by design and is not generated",
+		},
+		Units: []Unit{
+			{Name: "laws", Pkg: "c17", Run: "^TestC17MergeLaws$", QuickChecks: 40000, ThoroughChecks: 400000, ThoroughShards: 16},
+		},
+	}
 }
